@@ -468,13 +468,17 @@ def find_case(entry, variant):
         return None
 
 
-def run_cells(cells, seed):
+def run_cells(cells, seed, deadline=None):
     """-> (rows, stats); rows: one dict per cell with status / hits (only JSON-able data: the worker protocol)"""
     from . import c13_dyn
     import collections
     rows = []
     st = collections.Counter()
+    import time
     for case, lay in cells:
+        if deadline is not None and time.time() > deadline:
+            st["not-run (time budget)"] += 1
+            continue
         r = c13_dyn.run_case(case, lay, seed)
         rows.append({"entry": case[0], "variant": case[1], "layout": lay, "status": r["status"], "error": r.get("error"), "hits": r["hits"],
                      "degenerate": r["degenerate"], "seq": r.get("seq")})
@@ -489,6 +493,11 @@ if __name__ == "__main__":
     torch.set_num_threads(1)
     from . import c13_dyn
     seed, thorough, part, nparts, out = int(sys.argv[1]), sys.argv[2] == "1", int(sys.argv[3]), int(sys.argv[4]), sys.argv[5]
+    import time
+    budget = int(sys.argv[6]) if len(sys.argv) > 6 else 0
+    toks = [t for t in (sys.argv[7].split(",") if len(sys.argv) > 7 else []) if t]
     cells = grid_cells(seed, thorough, c13_dyn.LAYOUTS)[part::nparts]
-    rows, st = run_cells(cells, seed)
+    if toks:        # widened, time-boxed search: cells that mention the class / function of an open static site first
+        cells.sort(key=lambda c: 0 if any(t in c[0][0] for t in toks) else 1)
+    rows, st = run_cells(cells, seed, deadline=(time.time() + budget) if budget else None)
     json.dump({"rows": rows, "stat": st}, open(out, "w"))
